@@ -42,6 +42,8 @@ func c02Devices() map[string]c02Dev {
 		"B": {"B", 2, key("devB"), 9, 5},
 		// capacity 2^64-1 ("unlimited"): 1.35 x capacity does not fit 64 bits; no non-negative report is over capacity
 		"C": {"C", 4, key("devC"), 1<<63 - 1, 500},
+		// the largest short id (the value a "no device yet" marker would have), ordinary capacity 1000
+		"D": {"D", 1<<32 - 1, key("devD"), 1350, 500},
 	}
 }
 
@@ -146,9 +148,12 @@ func c02Exec(raw json.RawMessage, hist []string, deep bool) *bfsResult {
 	base := uint32(a.Rotations) * mWeek
 	w.setNow(base + c02Now)
 	devs := c02Devices()
-	if _, ok := a.Slots["C"]; ok {
-		if code, out := w.doAuthorize(w.signAuth(authFor(devs["C"].id, devs["C"].k, 1<<64-1), w.GCA.Priv)); code != 200 || out != authAdded {
-			res.fail("harness/setup", fmt.Sprint("authorization of the unlimited-capacity device answered ", code))
+	for name, capa := range map[string]uint64{"C": 1<<64 - 1, "D": 1000} {
+		if _, ok := a.Slots[name]; !ok {
+			continue
+		}
+		if code, out := w.doAuthorize(w.signAuth(authFor(devs[name].id, devs[name].k, capa), w.GCA.Priv)); code != 200 || out != authAdded {
+			res.fail("harness/setup", fmt.Sprint("authorization of device ", name, " answered ", code))
 			return res
 		}
 	}
@@ -289,9 +294,9 @@ func init() {
 		p := pool.New(0)
 		st := bfsPool(run, p, "c02", arg, depth, 0, func([]string) []string { return ops })
 		// the same search in a window that has rotated (offset 2016): indices and timeslots differ there
-		arg2 := c02Arg{Slots: map[string][]int{"A": {0}, "C": {0}}, Rotations: 1}
+		arg2 := c02Arg{Slots: map[string][]int{"A": {0}, "C": {0}, "D": {0}}, Rotations: 1}
 		if tier == "thorough" {
-			arg2 = c02Arg{Slots: map[string][]int{"A": {0, 1}, "B": {0}, "C": {0}}, Rotations: 2}
+			arg2 = c02Arg{Slots: map[string][]int{"A": {0, 1}, "C": {0}, "D": {0}}, Rotations: 2}
 		}
 		ops2 := c02Ops(arg2)
 		st2 := bfsPool(run, p, "c02", arg2, depth, 0, func([]string) []string { return ops2 })
